@@ -81,10 +81,15 @@ pub fn run(rep: &Report) -> i32 {
     rep.set("wide_call_programs", json!(wide.len()));
     rep.transition(wide.len() as u64);
     let uni = gen::universe_a();
+    let (twins, twin_fns) = twin_function_terms();
+    rep.set("twin_function_programs", json!(twins.len()));
+    rep.transition(twins.len() as u64);
+    let mut wide_fns = wide_fns;
+    wide_fns.extend(twin_fns);
     let lits = wide_literal_terms();
     rep.set("wide_literal_programs", json!(lits.len()));
     rep.transition(lits.len() as u64);
-    let all: Vec<(Expr, Ty)> = deep.into_iter().chain(wide).chain(lits).collect();
+    let all: Vec<(Expr, Ty)> = deep.into_iter().chain(wide).chain(lits).chain(twins).collect();
     par_for(&all, rep, 4, |_, (e, ty)| {
         drive::DUMMY.with(|env| check_term(rep, e, ty, &uni, &wide_fns, env, &forms, &seen));
     });
@@ -206,6 +211,60 @@ pub fn wide_literal_terms() -> Vec<(Expr, Ty)> {
         }
     }
     out
+}
+
+/// The wrapped programs of the small families (deep environments, wide calls, wide literals, twin functions), for
+/// checks that only need their texts (C03: whatever is accepted must compile).
+pub fn extra_program_texts(quick: bool) -> Vec<String> {
+    let (wide, mut fns) = wide_call_terms(quick);
+    let (twins, twin_fns) = twin_function_terms();
+    fns.extend(twin_fns);
+    let uni = gen::universe_a();
+    deep_env_terms(quick)
+        .into_iter()
+        .chain(wide)
+        .chain(wide_literal_terms())
+        .chain(twins)
+        .map(|(e, ty)| {
+            let free = gen::free_typed(&e, &uni);
+            let extra = gen::fns_for(&e, &fns);
+            gen::wrap_term(&e, &ty, &free, &extra).render()
+        })
+        .collect()
+}
+
+/// Programs that use TWO functions with the same body text: parameter names permuted, an unused parameter at another
+/// type, another arity, and the same for a direct call next to a fold - in both orders of use.
+pub fn twin_function_terms() -> (Vec<(Expr, Ty)>, BTreeMap<String, FnDef>) {
+    let u8t = Ty::U(8);
+    let x = || var(&gen::var_name(&Ty::U(8), 0));
+    let f = |name: &str, params: Vec<(&str, Ty)>, ret: Ty, body: Expr| FnDef { name: name.into(), params: params.into_iter().map(|(n, t)| (n.to_string(), t)).collect(), ret: Some(ret), body: (vec![], Some(Box::new(body))) };
+    let mut fns = BTreeMap::new();
+    for d in [
+        f("tw_ab", vec![("a", u8t.clone()), ("b", u8t.clone())], u8t.clone(), var("a")),
+        f("tw_ba", vec![("b", u8t.clone()), ("a", u8t.clone())], u8t.clone(), var("a")),
+        f("tw_u", vec![("x", u8t.clone())], Ty::Bool, boolean(true)),
+        f("tw_v", vec![("x", Ty::U(16))], Ty::Bool, boolean(true)),
+        f("tw_one", vec![("a", u8t.clone())], u8t.clone(), var("a")),
+        f("tw_two", vec![("a", u8t.clone()), ("b", u8t.clone())], u8t.clone(), var("a")),
+        f("tw_keep8", vec![("element", u8t.clone()), ("acc", Ty::U(32))], Ty::U(32), var("acc")),
+        f("tw_keep16", vec![("element", Ty::U(16)), ("acc", Ty::U(32))], Ty::U(32), var("acc")),
+    ] {
+        fns.insert(d.name.clone(), d);
+    }
+    let pair = |a: Expr, ta: Ty, b: Expr, tb: Ty| (Expr::Tuple(vec![a, b]), Ty::tup(vec![ta, tb]));
+    let fold16 = || call(CallName::Fold("tw_keep16".into(), 4), vec![Expr::List(vec![dec(1), dec(2)]), dec(6)]);
+    let out = vec![
+        pair(fcall("tw_ab", vec![x(), dec(7)]), u8t.clone(), fcall("tw_ba", vec![x(), dec(7)]), u8t.clone()),
+        pair(fcall("tw_ba", vec![x(), dec(7)]), u8t.clone(), fcall("tw_ab", vec![x(), dec(7)]), u8t.clone()),
+        pair(fcall("tw_u", vec![x()]), Ty::Bool, fcall("tw_v", vec![dec(1000)]), Ty::Bool),
+        pair(fcall("tw_v", vec![dec(1000)]), Ty::Bool, fcall("tw_u", vec![x()]), Ty::Bool),
+        pair(fcall("tw_one", vec![x()]), u8t.clone(), fcall("tw_two", vec![dec(9), x()]), u8t.clone()),
+        pair(fcall("tw_two", vec![dec(9), x()]), u8t.clone(), fcall("tw_one", vec![x()]), u8t.clone()),
+        pair(fcall("tw_keep8", vec![x(), dec(5)]), Ty::U(32), fold16(), Ty::U(32)),
+        pair(fold16(), Ty::U(32), fcall("tw_keep8", vec![x(), dec(5)]), Ty::U(32)),
+    ];
+    (out, fns)
 }
 
 fn run_json(text: &str, witness: &[(String, Val, Ty)], debug: bool, expect: &str, observed: &str) -> serde_json::Value {
